@@ -43,6 +43,7 @@ type recAdapter struct {
 	ops      []adOp
 	failEnq  int // 1/n chance to refuse (0 = never)
 	failDeq  int
+	failStreak int // the next failStreak dequeues are refused although items are pending (backend hiccup)
 	failAck  int
 	preload  int
 	retain   bool // keep the []byte handed to Enqueue instead of copying it
@@ -140,6 +141,11 @@ func (a *recAdapter) DequeueWithAckId() (any, bool, string) {
 	vt.Do(0, "ad:deq", a, nil, nil, func() string {
 		if len(a.pending) == 0 {
 			a.log("deq0", -1, "")
+			return "0"
+		}
+		if a.failStreak > 0 {
+			a.failStreak--
+			a.log("deq!", -1, "")
 			return "0"
 		}
 		if a.chance(a.failDeq) {
